@@ -1869,7 +1869,7 @@ func (g *Gen) setMayFireIn(fr *Frame, li *loopInfo, s *AnchorSet) bool {
 				if callee.Parent() != nil {
 					nm = closureVarName(callee)
 				}
-				if s.Call != "" && nm == s.Call {
+				if (s.Call != "" && nm == s.Call) || (s.AfterCall != "" && nm == s.AfterCall) {
 					return true
 				}
 				// an inlined closure may contain any trigger
